@@ -596,18 +596,25 @@ def evaluate_payload_template(input, context, template):
                 raise IntrinsicFailure(
                     "States.MathRandom failed, requires two or three arguments"
                 )
-            # The last argument controls the seed value and is optional.
-            if len(args) == 3:
-                # https://docs.python.org/3/library/random.html#random.seed
-                random.seed(args[2])
             if not is_integer(args[0]) or not is_integer(args[1]):
                 raise IntrinsicFailure(
                     "States.MathRandom failed, args[0] and args[1] must be integers."
                 )
 
-            # States.MathRandom has inclusive start and exclusive end number
-            # https://docs.aws.amazon.com/step-functions/latest/dg/amazon-states-language-intrinsic-functions.html#asl-intrsc-func-math-operation
-            return random.randrange(args[0], args[1])
+            try:
+                # The last argument controls the seed value and is optional.
+                if len(args) == 3:
+                    # https://docs.python.org/3/library/random.html#random.seed
+                    random.seed(args[2])
+
+                # States.MathRandom has inclusive start and exclusive end number
+                # https://docs.aws.amazon.com/step-functions/latest/dg/amazon-states-language-intrinsic-functions.html#asl-intrsc-func-math-operation
+                return random.randrange(args[0], args[1])
+            except (TypeError, ValueError) as e:
+                # An object or array as the seed, or an empty range.
+                raise IntrinsicFailure(
+                    "States.MathRandom failed with {}.".format(e)
+                )
 
         def asl_intrinsic_MathAdd(args):
             if len(args) != 2:
